@@ -27,7 +27,12 @@ func cmdReplay(args []string) {
 	up := fs.String("universe", "", "universe json")
 	vp := fs.String("vectors", "", "vectors json (list of cases with exp/expK)")
 	strat := fs.String("strategies", "iface,any", "resolver strategies to realise the data with")
+	rotp := fs.Int("rot", -1, "cases are spread over list modes, binding modes and layouts by position; rot shifts the assignment (default: the seed)")
 	_ = fs.Parse(args)
+	rot := *rotp
+	if rot < 0 {
+		rot = int(vh.Seed() % 6)
+	}
 	var u gq.Universe
 	vh.ReadJSON(*up, &u)
 	var cases []gq.Case
@@ -97,8 +102,8 @@ func cmdReplay(args []string) {
 			continue
 		}
 		for si, s := range strings.Split(*strat, ",") {
-			lm := (i + si) % 3
-			lo := gq.Layouts[(i+si)%len(gq.Layouts)]
+			lm := (i + si + rot) % 3
+			lo := gq.Layouts[(i+si+rot)%len(gq.Layouts)]
 			if s == "refl" && !gq.ReflSuitable(&u, c) {
 				continue
 			}
@@ -112,7 +117,7 @@ func cmdReplay(args []string) {
 				lm = int(gq.ListResolver)
 			}
 			if s == "refl" {
-				lm = (i + si) % int(gq.NumBindings)
+				lm = (i + si + rot) % int(gq.NumBindings)
 			}
 			w := worlds[s+string(rune('0'+lm))]
 			act := w.Run(c, lo)
